@@ -138,8 +138,8 @@ def stepOp (st : St) (idx : Nat) (op : String) : Option (St × String) :=
   | ["D", k, methods] => do
     let k ← k.toNat?
     let (_, id) ← st.ret.find? (·.1 == k)
-    let r ← st.R.obj? id
-    pure ({ st with R := st.R.setObj id (r.removeMethod (unhexStrList methods)) }, "ok")
+    let _ ← st.R.obj? id
+    pure ({ st with R := st.R.removeMethod id (unhexStrList methods) }, "ok")
   | ["N"] => pure (st, "skip")
   | _ => none
 
